@@ -72,6 +72,8 @@ func (c17) Exec(c Case) []string {
 
 func (c17) Generate(rng *rand.Rand, tier string, st *Stats) []Case {
 	var cases []Case
+	// corpus: numbering must continue after the queue was drained (F-10)
+	cases = append(cases, Case{ID: "corpus-drain", Ops: [][]string{{"push", hx("a")}, {"pop"}, {"push", hx("b")}, {"popn", "5"}, {"push", hx("c")}}})
 	// bounded-exhaustive: all sequences up to length L over a small op alphabet
 	alphabet := [][]string{
 		{"push", hx("a")}, {"push", hx("b")}, {"pop"}, {"popn", "-1"}, {"popn", "0"}, {"popn", "1"}, {"popn", "2"},
